@@ -22,10 +22,6 @@ var errZZCap = errors.New("node capability store error")
 // zz:noreplay gabs.ParseJSON / StringIndent / allowEBPFNetworkPolicy are summarised through engine-side overrides
 func ZZ_C20_cni_chain() {
 	n := zz.Fork("plugins", 3) + 1
-	if zz.Tier() == 0 && n == 3 {
-		// quick: three plugins only in the canonical order
-		zz.Reach("thorough-only")
-	}
 	docs := map[string]map[string]any{}
 	types_ := make([]string, n)
 	var configs [][]byte
